@@ -50,6 +50,7 @@ type Task struct {
 	Prio    float64 // scratch for policies
 	Seen    bool    // scratch for policies
 	Starved bool    // scratch for policies
+	counts  [2]int64
 }
 
 // State returns the task state (only meaningful at quiescence).
@@ -139,6 +140,19 @@ func (s *Sim) self() *Task {
 	t := s.byGoid[g]
 	s.mu.Unlock()
 	return t
+}
+
+var freeCounts [2]atomic.Int64
+
+// TaskCount increments and returns a counter private to the calling task (slot 0 or 1). Only the
+// task itself touches it, so what it counts does not depend on how tasks overlap between yields.
+// Outside a controlled simulation there is one counter per slot for everybody.
+func TaskCount(slot int) int64 {
+	if t := Self(); t != nil {
+		t.counts[slot]++
+		return t.counts[slot]
+	}
+	return freeCounts[slot].Add(1)
 }
 
 // Self returns the current task, or nil.
